@@ -10,6 +10,7 @@ LOCKSPECS = [
                   "_ls_retransmit_counters": "_ls_lock", "_ls_packet_buffers": "_ls_lock",
                   "ego_position_vector": "ego_position_vector_lock"},
              atomic_read_ok=["ego_position_vector"], props=["C15"], init_phase=["setup_gn_address"],
+             guarded_foreign={"ls_pending": "_ls_lock"},
              note="ego_position_vector holds an immutable (frozen) record: writes are locked, a single unlocked read yields a vector that was the ego position at some instant"),
     LockSpec(f"{LT}:LocationTable", {"loc_t": "loc_t_lock"}, props=["C15"]),
     LockSpec(f"{LT}:LocationTableEntry", {"dpl_set": "dpl_lock", "dpl_deque": "dpl_lock", "tst": "tst_lock"}, props=["C15"]),
